@@ -400,7 +400,7 @@ func specSliceCount(byteCount, sliceByteCount int) int {
 // volume starts at i+volumeCount. NOT proved (solver limits on map-content invariants): that
 // entry i+j holds parity shard i+j.
 //@ func (*Encoder).Write
-//@   props C18 C02 C05
+//@   props C18 C02 C05 C17
 //@   skip-safety
 //@   requires e.parityShardCount <= 65536 && len(e.parityShards) >= e.parityShardCount
 //@   ensures implies(gIOFailed && !old(gIOFailed), result != nil)
@@ -493,6 +493,7 @@ func specSliceCount(byteCount, sliceByteCount int) int {
 // which writes into spare capacity of that slice if there is any; the encoder never sets a
 // non-recovery set.) Used only so that Encoder.Write's own state survives the call.
 //@ func writeFile
-//@   props C05
+//@   props C05 C17
 //@   assume-contract serialiser: frame assumed, body not verified
+//@   requires len(file.unknownPackets) == 0
 //@   modifies nothing
